@@ -327,6 +327,11 @@ def cases(ck):
             vals = rng.sample(pool, 70)
           if src.startswith("Ref"):
             vals = [v for v in vals if not has_negative(v)]
+          # values that compare and hash equal but are of different types, in a random order: a
+          # conversion that is not applied to each cell separately (caching, grouping) mixes them up
+          alias = [True, 1, 1.0, False, 0, 0.0, -0.0]
+          rng.shuffle(alias)
+          vals = vals + alias
           cols.append({"dst": dst, "path": path, "vals": vals})
       for k in range(0, len(cols), 10):
         out.append({"src": src, "cols": cols[k:k + 10]})
